@@ -250,7 +250,9 @@ type c17Ev struct {
 type c17Live struct {
 	marker int
 	ecs    []bgp.ExtendedCommunityInterface
-	src    int // model source id
+	src    int    // model source id
+	uid    int    // the model's id of the object now stored (a soft reset in may replace it by a clone)
+	def    string // the rest of the model's path line after "uid root"
 }
 
 type c17World struct {
@@ -269,6 +271,8 @@ type c17World struct {
 	ann     map[string]*c17Live    // "src/pid/rd/pfx" -> live announcement from a PE source
 	ceAnn   map[string]*c17Live    // "ce/pfx"
 	green   bool
+	policy  bool // a global import policy that modifies every route (adds a community): the table holds clones
+	cloneID int
 }
 
 type c17VrfDef struct {
@@ -310,9 +314,26 @@ func c17PfxIdx(s string) int {
 	return -1
 }
 
-func c17NewWorld(t testing.TB, o *vOut) *c17World {
-	cw := &c17World{w: newVWorld(t, 65000, "10.255.0.1"), o: o, ann: map[string]*c17Live{}, ceAnn: map[string]*c17Live{}}
+func c17NewWorld(t testing.TB, o *vOut, policy ...bool) *c17World {
+	cw := &c17World{w: newVWorld(t, 65000, "10.255.0.1"), o: o, ann: map[string]*c17Live{}, ceAnn: map[string]*c17Live{}, cloneID: 100000}
 	w := cw.w
+	if len(policy) > 0 && policy[0] {
+		cw.policy = true
+		pol := &api.Policy{Name: "c17-import", Statements: []*api.Statement{{Name: "c17-mark",
+			Actions: &api.Actions{RouteAction: api.RouteAction_ROUTE_ACTION_ACCEPT,
+				Community: &api.CommunityAction{Type: api.CommunityAction_TYPE_ADD, Communities: []string{"65000:999"}}}}}}
+		if err := w.s.AddPolicy(context.Background(), &api.AddPolicyRequest{Policy: pol}); err != nil {
+			t.Fatal(err)
+		}
+		if err := w.s.AddPolicyAssignment(context.Background(), &api.AddPolicyAssignmentRequest{Assignment: &api.PolicyAssignment{
+			Name: table.GLOBAL_RIB_NAME, Direction: api.PolicyDirection_POLICY_DIRECTION_IMPORT, Policies: []*api.Policy{pol},
+			DefaultAction: api.RouteAction_ROUTE_ACTION_ACCEPT}}); err != nil {
+			t.Fatal(err)
+		}
+		o.stat("world_with_modifying_import_policy", 1)
+	} else {
+		o.stat("world_without_import_policy", 1)
+	}
 	X, Y, Z := c17EC(0, 1, true), c17EC(0, 2, true), c17EC(0, 3, true)
 	cw.vrfs = []c17VrfDef{
 		{id: 1, name: "red", rd: 1, imp: []bgp.ExtendedCommunityInterface{X, c17EC(0, 12, false)}, exp: []bgp.ExtendedCommunityInterface{X}},
@@ -650,9 +671,10 @@ func (cw *c17World) do(ev c17Ev, hist *[]string) {
 		src := cw.srcs[ev.peer]
 		pref := 100 + ev.lpr*64 + ev.peer*4 + ev.pid
 		r := &c17Route{rd: ev.rd, pfx: ev.pfx, pathID: ev.pid, marker: cw.marker, lp: uint32(pref), ecs: ev.ecs}
-		o.op("path %d %d %d %d %d %d %d %d %s", cw.marker, ev.peer+1, ev.pid, ev.rd, ev.pfx, 1000+ev.rd, pref, cw.marker, c17ECList(ev.ecs))
+		def := fmt.Sprintf("%d %d %d %d %d %d %d %s", ev.peer+1, ev.pid, ev.rd, ev.pfx, 1000+ev.rd, pref, cw.marker, c17ECList(ev.ecs))
+		o.op("path %d %d %s", cw.marker, cw.marker, def)
 		o.op("upd %d 0", cw.marker)
-		cw.ann[fmt.Sprintf("%d/%d/%d/%d", ev.peer, ev.pid, ev.rd, ev.pfx)] = &c17Live{marker: cw.marker, ecs: ev.ecs}
+		cw.ann[fmt.Sprintf("%d/%d/%d/%d", ev.peer, ev.pid, ev.rd, ev.pfx)] = &c17Live{marker: cw.marker, ecs: ev.ecs, uid: cw.marker, def: def}
 		desc = fmt.Sprintf("ann src=%d pid=%d rd=%d pfx=%d lp=%d marker=%d ecs=%s", ev.peer, ev.pid, ev.rd, ev.pfx, pref, cw.marker, c17ECList(ev.ecs))
 		*hist = append(*hist, desc)
 		w.recv(src.vwPeer, r.msg(src))
@@ -667,7 +689,7 @@ func (cw *c17World) do(ev c17Ev, hist *[]string) {
 		delete(cw.ann, k)
 		src := cw.srcs[ev.peer]
 		r := &c17Route{rd: ev.rd, pfx: ev.pfx, pathID: ev.pid}
-		o.op("upd %d 1", l.marker)
+		o.op("upd %d 1", l.uid)
 		desc = fmt.Sprintf("wd src=%d pid=%d rd=%d pfx=%d (marker %d)", ev.peer, ev.pid, ev.rd, ev.pfx, l.marker)
 		*hist = append(*hist, desc)
 		w.recv(src.vwPeer, r.wd())
@@ -770,9 +792,10 @@ func (cw *c17World) do(ev c17Ev, hist *[]string) {
 		}
 		all := append(append([]bgp.ExtendedCommunityInterface{}, ev.ecs...), v.exp...)
 		o.ask(fmt.Sprintf("%d %d 0 %d %s", v.rd, ev.pfx, cw.marker, c17ShowECs(all)), "toglobal %d %d %d %s", v.id, ev.pfx, cw.marker, c17ECList(ev.ecs))
-		o.op("path %d %d 0 %d %d 0 100 %d %s", cw.marker, 11+ev.peer, v.rd, ev.pfx, cw.marker, c17ECList(all))
+		cedef := fmt.Sprintf("%d 0 %d %d 0 100 %d %s", 11+ev.peer, v.rd, ev.pfx, cw.marker, c17ECList(all))
+		o.op("path %d %d %s", cw.marker, cw.marker, cedef)
 		o.op("upd %d 0", cw.marker)
-		cw.ceAnn[fmt.Sprintf("%d/%d", ev.peer, ev.pfx)] = &c17Live{marker: cw.marker}
+		cw.ceAnn[fmt.Sprintf("%d/%d", ev.peer, ev.pfx)] = &c17Live{marker: cw.marker, uid: cw.marker, def: cedef}
 		desc = fmt.Sprintf("ce-ann ce=%d pfx=%d marker=%d own-ecs=%s", ev.peer, ev.pfx, cw.marker, c17ECList(ev.ecs))
 		*hist = append(*hist, desc)
 		w.recv(ce.vwPeer, bgp.NewBGPUpdateMessage(nil, attrs, []bgp.PathNLRI{{NLRI: n}}))
@@ -808,7 +831,7 @@ func (cw *c17World) do(ev c17Ev, hist *[]string) {
 		delete(cw.ceAnn, k)
 		ce := cw.ces[ev.peer]
 		n, _ := bgp.NewIPAddrPrefix(netip.MustParsePrefix(c17Pfx[ev.pfx]))
-		o.op("upd %d 1", l.marker)
+		o.op("upd %d 1", l.uid)
 		desc = fmt.Sprintf("ce-wd ce=%d pfx=%d (marker %d)", ev.peer, ev.pfx, l.marker)
 		*hist = append(*hist, desc)
 		w.recv(ce.vwPeer, bgp.NewBGPUpdateMessage([]bgp.PathNLRI{{NLRI: n}}, nil, nil))
@@ -818,6 +841,77 @@ func (cw *c17World) do(ev c17Ev, hist *[]string) {
 				askCE(i, msgs)
 			}
 		})
+	case "softin", "cesoftin":
+		// soft reset in: the Adj-RIB-In paths of the peer are fed again. Without a modifying import
+		// policy the table is handed the very objects it holds; with one, new clones of the same
+		// announcements; for a VRF neighbor ToGlobal builds new paths. Nothing changes, so nothing
+		// must be sent - and the routes must still be found by RT afterwards.
+		var addr string
+		var live []*c17Live
+		if ev.kind == "softin" {
+			addr = cw.srcs[ev.peer].spec.addr.String()
+			pre := fmt.Sprintf("%d/", ev.peer)
+			for _, k := range c17Keys(cw.ann) {
+				if strings.HasPrefix(k, pre) {
+					live = append(live, cw.ann[k])
+				}
+			}
+		} else {
+			addr = cw.ces[ev.peer].spec.addr.String()
+			pre := fmt.Sprintf("%d/", ev.peer)
+			for _, k := range c17Keys(cw.ceAnn) {
+				if strings.HasPrefix(k, pre) {
+					live = append(live, cw.ceAnn[k])
+				}
+			}
+		}
+		desc = fmt.Sprintf("%s peer=%d (%d routes, modifying import policy: %v)", ev.kind, ev.peer, len(live), cw.policy)
+		*hist = append(*hist, desc)
+		if err := w.s.softResetIn(addr, bgp.Family(0)); err != nil {
+			o.fail("soft-reset-in", err.Error())
+		}
+		o.stat("soft_reset_in", 1)
+		o.stat("soft_reset_in_routes", len(live))
+		obsMsgs := make([][]string, len(cw.obs))
+		ceMsgs := make([][]string, len(cw.ces))
+		cw.flushAll(func(i int, msgs []string) { obsMsgs[i] = msgs }, func(i int, msgs []string) { ceMsgs[i] = msgs })
+		for n, l := range live {
+			switch {
+			case ev.kind == "cesoftin":
+				cw.cloneID++
+				l.uid = cw.cloneID
+				o.op("path %d %d %s", l.uid, l.uid, l.def) // a new announcement object with the same content
+			case cw.policy:
+				cw.cloneID++
+				l.uid = cw.cloneID
+				o.op("path %d %d %s", l.uid, l.marker, l.def) // a new clone of the same announcement
+			}
+			o.op("upd %d 0", l.uid)
+			for i := range cw.obs {
+				if n == 0 {
+					o.ask(c17Join(obsMsgs[i]), "chg %d", i)
+				} else {
+					o.ask("-", "chg %d", i)
+				}
+			}
+			for i := range cw.ces {
+				if ev.kind == "cesoftin" && i == ev.peer {
+					continue
+				}
+				if n == 0 {
+					o.ask(c17Join(ceMsgs[i]), "cechg %d", cw.vrfs[cw.ceVrf[i]].id)
+				} else {
+					o.ask("-", "cechg %d", cw.vrfs[cw.ceVrf[i]].id)
+				}
+			}
+		}
+		if len(live) == 0 {
+			for i := range cw.obs {
+				if len(obsMsgs[i]) != 0 {
+					o.fail("rtc-minimal", map[string]any{"after": desc, "observer-was-sent": obsMsgs[i]})
+				}
+			}
+		}
 	case "bounce":
 		ob := cw.obs[ev.peer]
 		desc = fmt.Sprintf("bounce obs=%d", ev.peer)
@@ -856,6 +950,15 @@ func (cw *c17World) do(ev c17Ev, hist *[]string) {
 		cw.flushAll(cw.noVpn(desc), cw.noPlain(desc))
 	}
 	cw.checkViews(desc, hist)
+}
+
+func c17Keys(m map[string]*c17Live) []string {
+	keys := make([]string, 0, len(m))
+	for k := range m {
+		keys = append(keys, k)
+	}
+	sort.Strings(keys)
+	return keys
 }
 
 func (cw *c17World) noVpn(desc string) func(int, []string) {
@@ -950,7 +1053,7 @@ func c17GenEv(r *vRand, cw *c17World) c17Ev {
 		ev.kind = "wd"
 		fmt.Sscanf(keys[r.intn(len(keys))], "%d/%d/%d/%d", &ev.peer, &ev.pid, &ev.rd, &ev.pfx)
 		return ev
-	case x < 85:
+	case x < 82:
 		ev := c17Ev{kind: "mem", peer: r.intn(2), as: uint32(r.pick(65000, 65000, 65001)), memWd: r.chance(45), lpr: r.intn(4)}
 		switch y := r.intn(10); {
 		case y == 0:
@@ -961,17 +1064,23 @@ func c17GenEv(r *vRand, cw *c17World) c17Ev {
 			ev.rt = c17SrvPool[r.intn(4)]
 		}
 		return ev
-	case x < 90:
+	case x < 86:
 		ce := r.intn(2)
 		own := c17GenECs(r)
 		if len(own) > 1 {
 			own = own[:1]
 		}
 		return c17Ev{kind: "cean", peer: ce, pfx: 6 + ce, ecs: own}
-	case x < 93:
+	case x < 88:
 		ce := r.intn(2)
 		return c17Ev{kind: "cewd", peer: ce, pfx: 6 + ce}
 	case x < 95:
+		if r.chance(70) {
+			if r.chance(80) {
+				return c17Ev{kind: "softin", peer: r.intn(4)}
+			}
+			return c17Ev{kind: "cesoftin", peer: r.intn(2)}
+		}
 		return c17Ev{kind: "bounce", peer: r.intn(2)}
 	case x < 98:
 		return c17Ev{kind: "addvrf"}
@@ -1042,6 +1151,20 @@ func c17CorpusSrv(t testing.TB, o *vOut) {
 			{kind: "mem", peer: 0, rt: W, as: 65000, lpr: 3}, {kind: "mem", peer: 1, rt: W, as: 65000, lpr: 1},
 			{kind: "addvrf"}, {kind: "delvrf"}, {kind: "addvrf"}, {kind: "mem", peer: 1, rt: W, as: 65000, lpr: 1, memWd: true}, {kind: "delvrf"},
 		})
+	soft := [][]c17Ev{
+		{ // a route fed again by soft reset in must still be found when its target is asked for
+			{kind: "ann", peer: 0, rd: 5, pfx: 0, ecs: ecs(X)}, {kind: "softin", peer: 0},
+			{kind: "mem", peer: 0, rt: X, as: 65000}, {kind: "mem", peer: 0, rt: X, as: 65000, memWd: true},
+			{kind: "softin", peer: 0}, {kind: "softin", peer: 0}, {kind: "mem", peer: 0, rt: X, as: 65000},
+		},
+		{ // ... with ADD-PATH paths and a second source around, and for a VRF neighbor's routes
+			{kind: "ann", peer: 0, rd: 5, pfx: 0, lpr: 1, ecs: ecs(X, Y)}, {kind: "ann", peer: 2, pid: 1, rd: 5, pfx: 0, lpr: 3, ecs: ecs(Y)},
+			{kind: "cean", peer: 0, pfx: 6}, {kind: "mem", peer: 1, rt: Y, as: 65000},
+			{kind: "softin", peer: 2}, {kind: "softin", peer: 0}, {kind: "cesoftin", peer: 0},
+			{kind: "wd", peer: 2, pid: 1, rd: 5, pfx: 0}, {kind: "softin", peer: 0},
+			{kind: "mem", peer: 0, rt: X, as: 65000}, {kind: "mem", peer: 1, rt: Y, as: 65000, memWd: true}, {kind: "mem", peer: 1, rt: Y, as: 65000},
+		},
+	}
 	for _, c := range cases {
 		cw := c17NewWorld(t, o)
 		hist := []string{}
@@ -1050,6 +1173,17 @@ func c17CorpusSrv(t testing.TB, o *vOut) {
 		}
 		cw.w.stop()
 		o.stat("corpus_cases", 1)
+	}
+	for _, c := range soft {
+		for _, pol := range []bool{false, true} {
+			cw := c17NewWorld(t, o, pol)
+			hist := []string{}
+			for _, ev := range c {
+				cw.do(ev, &hist)
+			}
+			cw.w.stop()
+			o.stat("corpus_cases", 1)
+		}
 	}
 }
 
@@ -1063,7 +1197,7 @@ func TestVerifC17Srv(t *testing.T) {
 		scenarios, steps = 150, 120
 	}
 	for s := 0; s < scenarios; s++ {
-		cw := c17NewWorld(t, o)
+		cw := c17NewWorld(t, o, s%2 == 1)
 		hist := []string{}
 		for i := 0; i < steps; i++ {
 			ev := c17GenEv(r, cw)
